@@ -36,6 +36,18 @@ InitExpected(val) == IF val.ty = "dt" /\ ~LocalOf(Inst(val.dn, val.sod, val.ns),
                      THEN {AnyOutcome} ELSE {ProjOf(val)}
 Expected(e) == IF e.op = "init" THEN InitExpected(e.val) ELSE Allowed(e, reg[e.a], reg[e.b])
 
+\* lexicographic order on clock readings <<dn, sod, ns>>
+TripleLe(a, b) == \/ a[1] < b[1] \/ (a[1] = b[1] /\ a[2] < b[2]) \/ (a[1] = b[1] /\ a[2] = b[2] /\ a[3] <= b[3])
+\* a now() result lies between the environment's two readings of the clock (and carries offset 0)
+Between(op, res, x) ==
+  res.k = "ok" /\
+  CASE op = "dt_now" -> res.off = 0 /\ TripleLe(x.lo, <<res.dn, res.sod, res.ns>>) /\ TripleLe(<<res.dn, res.sod, res.ns>>, x.hi)
+    [] op = "date_now" -> "rem" \notin DOMAIN res /\ x.lo[1] <= res.dn /\ res.dn <= x.hi[1]
+    [] op = "time_now" -> LET t == TodOfWide(res.nod) IN
+                          /\ res.off = 0 /\ IsCanonicalTod(res.nod)
+                          /\ (x.lo[1] = x.hi[1] => TripleLe(<<0, x.lo[2], x.lo[3]>>, <<0, t.sod, t.ns>>)
+                                                   /\ TripleLe(<<0, t.sod, t.ns>>, <<0, x.hi[2], x.hi[3]>>))
+
 Matches(res, al) == \/ AnyOutcome \in al
                     \/ (res.k = "panic" /\ Panic \in al)
                     \/ \E x \in al : x.k = res.k /\ x = res
@@ -50,14 +62,18 @@ After(e) == IF HasDst(e) /\ e.res.k = "ok" /\ TypeOfResult(e) # "none"
 
 Init == reg = [r \in RegNames |-> NoValue] /\ l = 1 /\ bad = <<>>
 
+Explained(e) == IF e.op \in {"dt_now", "date_now", "time_now"}
+                THEN \E x \in Expected(e) : Between(e.op, e.res, x)
+                ELSE Matches(e.res, Expected(e))
+
 StepOk == /\ l <= Len(Rec)
-          /\ Matches(Rec[l].res, Expected(Rec[l]))
+          /\ Explained(Rec[l])
           /\ reg' = After(Rec[l])
           /\ bad' = bad
           /\ l' = l + 1
 
 Diverge == /\ l <= Len(Rec)
-           /\ ~Matches(Rec[l].res, Expected(Rec[l]))
+           /\ ~Explained(Rec[l])
            /\ bad' = Append(bad, [i |-> Rec[l].i, event |-> Rec[l], expected |-> SetToSeq(Expected(Rec[l]))])
            /\ reg' = After(Rec[l])          \* resynchronise to what the implementation reported
            /\ l' = l + 1
